@@ -79,6 +79,19 @@ def define_va():
             self.scale = scale
             self.off = 0
 
+        # analyses with equal content compare and hash equal although they are different objects (a dataclass-like
+        # analysis): a container keyed by the analysis, or a de-duplication, would merge them.  The state set up in
+        # modify_before_fit is not part of the content.
+        def _content(self):
+            return (self.c, tuple(self.w), tuple(self.fail), tuple(self.fail2), tuple(self.vfail), tuple(self.vfail2),
+                    self.scale, repr(self.paths))
+
+        def __eq__(self, other):
+            return type(other) is type(self) and self._content() == other._content()
+
+        def __hash__(self):
+            return hash(self._content())
+
         def modify_before_fit(self, paths, model):
             self.off += MOD["delta"]
             return self
